@@ -71,8 +71,21 @@ func Load(repoDir string, patterns []string, overlay map[string][]byte, tags str
 	if !strings.HasPrefix(os.Getenv("PATH"), goBin+":") {
 		os.Setenv("PATH", goBin+":"+os.Getenv("PATH"))
 	}
+	// With an overlay the export data of every dependent package would have to be rebuilt by
+	// the compiler; type-checking everything from source is much cheaper then.
+	goOverlay := map[string][]byte{}
+	for p, b := range overlay {
+		if strings.HasSuffix(p, ".go") {
+			goOverlay[p] = b
+		}
+	}
+	mode := packages.LoadSyntax
+	if len(goOverlay) > 0 {
+		mode = packages.LoadAllSyntax
+	}
+	overlay = goOverlay
 	cfg := &packages.Config{
-		Mode:    packages.LoadSyntax,
+		Mode:    mode,
 		Dir:     repoDir,
 		Env:     env(),
 		Tests:   false,
